@@ -11,7 +11,8 @@
 From Coq Require Import List Arith Bool ZArith.
 From VBase Require Import FieldOps.
 From VModel Require Import FFT.
-From VProofs Require Import FFTSpec FFTRefine FFTEval FFTOffset FFTSegments FFTPermU64 FFTF17 FFTExamples.
+From VGen Require Import FftIndex.
+From VProofs Require Import FFTSpec FFTRefine FFTEval FFTOffset FFTSegments FFTPermU64 FFTNoPanic FFTGen FFTF17 FFTExamples.
 Import ListNotations.
 Open Scope nat_scope.
 
@@ -210,6 +211,102 @@ Theorem C09_evaluate_columns_spec : forall (F : Type) (O : FOps F), FLaws O ->
     = Some (map (fun p => map (fun i => peval O p (fmul O offset (fpow O g i))) (seq 0 (2 ^ (S K + b)))) polys).
 Proof. exact @evaluate_columns_over_correct. Qed.
 Print Assumptions C09_evaluate_columns_spec.
+
+(* ------------------------------------------------------------------ no slice access out of range; panic domains *)
+(* The CHECKED model (Model/FFT.v, Section Checked): every values[i], twiddles[i], swap(i,j), the division
+   values.len()/stride and — for dbg = true, the debug profile — the debug_asserts of fft_in_place and permute_index
+   are explicit guards (None = panic).  For EVERY size, any count/stride/offset as passed by the entry points and by
+   the recursion (offset < stride, offset + count <= stride), twiddles of at least n/2 elements: no guard fails and the
+   result is the total model's.  No field law used. *)
+Theorem C09_fft_in_place_no_panic : forall (F : Type) (O : FOps F) (dbg : bool) (tw : list F) (K fuel : nat) (v : list F)
+    (count s offset : nat),
+  K <= fuel -> 0 < s -> length v = 2 ^ S K * s -> offset < s -> offset + count <= s -> 2 ^ K <= length tw ->
+  fft_in_place_c O dbg fuel v tw count s offset = Some (fft_in_place O fuel v tw count s offset).
+Proof. exact @fft_in_place_no_panic. Qed.
+Print Assumptions C09_fft_in_place_no_panic.
+
+Theorem C09_permute_no_panic : forall (F : Type) (O : FOps F) (dbg : bool) (k : nat) (v : list F),
+  length v = 2 ^ k -> permute_c O dbg v = Some (permute O v).
+Proof. exact @permute_no_panic. Qed.
+Print Assumptions C09_permute_no_panic.
+
+(* the checked entry points EQUAL the option-valued entry points used by every theorem above, on ALL inputs
+   (well-formed or not, both profiles): inside the asserts nothing else can panic *)
+Theorem C09_entry_points_no_panic : forall (F : Type) (O : FOps F) (dbg : bool) (two_adicity : nat) (root_of_unity : nat -> F),
+  (forall p tw, evaluate_poly_c O dbg two_adicity p tw = evaluate_poly O two_adicity p tw) /\
+  (forall p tw offset blowup, evaluate_poly_with_offset_c O dbg two_adicity root_of_unity p tw offset blowup
+                              = evaluate_poly_with_offset O two_adicity root_of_unity p tw offset blowup) /\
+  (forall v itw, interpolate_poly_c O dbg two_adicity v itw = interpolate_poly O two_adicity v itw) /\
+  (forall v itw offset, interpolate_poly_with_offset_c O dbg two_adicity v itw offset
+                        = interpolate_poly_with_offset O two_adicity v itw offset) /\
+  (forall n, get_twiddles_c O dbg two_adicity root_of_unity n = get_twiddles O two_adicity root_of_unity n) /\
+  (forall n, get_inv_twiddles_c O dbg two_adicity root_of_unity n = get_inv_twiddles O two_adicity root_of_unity n) /\
+  (forall v offset, infer_degree_c O dbg two_adicity root_of_unity v offset = infer_degree O two_adicity root_of_unity v offset).
+Proof.
+  exact (fun F O dbg ad r =>
+    conj (evaluate_poly_checked O dbg ad)
+   (conj (evaluate_poly_with_offset_checked O dbg ad r)
+   (conj (interpolate_poly_checked O dbg ad)
+   (conj (interpolate_poly_with_offset_checked O dbg ad)
+   (conj (get_twiddles_checked O dbg ad r)
+   (conj (get_inv_twiddles_checked O dbg ad r) (infer_degree_checked O dbg ad r))))))).
+Qed.
+Print Assumptions C09_entry_points_no_panic.
+
+(* exact panic domains: an entry point returns (does not panic) IFF its asserts hold *)
+Theorem C09_evaluate_poly_total_iff : forall (F : Type) (O : FOps F) (two_adicity : nat) (p tw : list F),
+  evaluate_poly O two_adicity p tw <> None <->
+  is_pow2 (length p) = true /\ length p = length tw * 2 /\ Nat.log2 (length p) <= two_adicity.
+Proof. exact @evaluate_poly_total_iff. Qed.
+Print Assumptions C09_evaluate_poly_total_iff.
+
+Theorem C09_evaluate_with_offset_total_iff : forall (F : Type) (O : FOps F) (two_adicity : nat) (root_of_unity : nat -> F)
+    (p tw : list F) (offset : F) (blowup : nat),
+  evaluate_poly_with_offset O two_adicity root_of_unity p tw offset blowup <> None <->
+  is_pow2 (length p) = true /\ is_pow2 blowup = true /\ length p = length tw * 2 /\
+  Nat.log2 (length p * blowup) <= two_adicity /\ feqb O offset (fzero O) = false.
+Proof. exact @evaluate_poly_with_offset_total_iff. Qed.
+Print Assumptions C09_evaluate_with_offset_total_iff.
+
+Theorem C09_interpolate_poly_total_iff : forall (F : Type) (O : FOps F) (two_adicity : nat) (v itw : list F),
+  interpolate_poly O two_adicity v itw <> None <->
+  is_pow2 (length v) = true /\ length v = length itw * 2 /\ Nat.log2 (length v) <= two_adicity.
+Proof. exact @interpolate_poly_total_iff. Qed.
+Print Assumptions C09_interpolate_poly_total_iff.
+
+Theorem C09_interpolate_with_offset_total_iff : forall (F : Type) (O : FOps F) (two_adicity : nat) (v itw : list F) (offset : F),
+  interpolate_poly_with_offset O two_adicity v itw offset <> None <->
+  is_pow2 (length v) = true /\ length v = length itw * 2 /\ Nat.log2 (length v) <= two_adicity /\
+  feqb O offset (fzero O) = false.
+Proof. exact @interpolate_poly_with_offset_total_iff. Qed.
+Print Assumptions C09_interpolate_with_offset_total_iff.
+
+(* get_twiddles(1) panics in get_root_of_unity(0) *)
+Theorem C09_get_twiddles_total_iff : forall (F : Type) (O : FOps F) (two_adicity : nat) (root_of_unity : nat -> F) (n : nat),
+  get_twiddles O two_adicity root_of_unity n <> None <->
+  is_pow2 n = true /\ Nat.log2 n <= two_adicity /\ Nat.log2 n <> 0.
+Proof. exact @get_twiddles_total_iff. Qed.
+Print Assumptions C09_get_twiddles_total_iff.
+
+Theorem C09_infer_degree_total_iff : forall (F : Type) (O : FOps F) (two_adicity : nat) (root_of_unity : nat -> F)
+    (v : list F) (offset : F),
+  infer_degree O two_adicity root_of_unity v offset <> None <->
+  is_pow2 (length v) = true /\ Nat.log2 (length v) <= two_adicity /\ Nat.log2 (length v) <> 0 /\
+  feqb O offset (fzero O) = false.
+Proof. exact @infer_degree_total_iff. Qed.
+Print Assumptions C09_infer_degree_total_iff.
+
+(* ------------------------------------------------------------------ tie to the TRANSLATED source (rs2v) *)
+(* VGen.FftIndex.fftidx_permute_index is regenerated from math/src/fft/mod.rs on every run (reverse_bits,
+   trailing_zeros, wrapping_shr on 64-bit words; its checked subtraction never wraps: `_ok`).  The hand model's
+   permute_index_u64 and permute_index compute exactly this term, every size 2^k <= 2^63, every index < size. *)
+Theorem C09_permute_index_generated : forall k i : nat, k <= 63 -> i < 2 ^ k ->
+  permute_index_u64 (N.of_nat (2 ^ k)) (N.of_nat i)
+    = Some (Z.to_N (fftidx_permute_index (Z.of_nat (2 ^ k)) (Z.of_nat i))) /\
+  Z.of_nat (permute_index (2 ^ k) i) = fftidx_permute_index (Z.of_nat (2 ^ k)) (Z.of_nat i) /\
+  fftidx_permute_index_ok (Z.of_nat (2 ^ k)) (Z.of_nat i) = true.
+Proof. exact permute_index_model_is_generated. Qed.
+Print Assumptions C09_permute_index_generated.
 
 (* ------------------------------------------------------------------ non-vacuity (Z/17, w = 3 of order 16) *)
 Theorem C09_nonvacuous_field : FLaws f17_ops.
